@@ -186,7 +186,44 @@ def kani_cmd(ob, extra=()):
     return cmd
 
 
+LOOP_RE = re.compile(r"^Loop (\S+):\n\s+file (\S+) line (\d+) column \d+ function ([^\n]*)", re.M)
+
+
+def resolve_unwindset(ob, src):
+    """Per-loop unwinding bounds: Kani's #[kani::unwind] is one bound for every loop of the program; where that makes a
+    harness intractable the obligation names loops by (function substring, regex on the loop's source line) and a bound.
+    The loop ids are looked up on every run with `--cbmc-args --show-loops`; unwinding assertions stay on, so a bound
+    that is too small is reported as undecided, never as a pass."""
+    rules = ob.get("unwindset_rules")
+    if not rules:
+        return []
+    res = run_limited(kani_cmd(ob, ["-Z", "unstable-options", "--output-format=old", "--cbmc-args", "--show-loops"])[:0] +
+                      [c for c in kani_cmd(ob) if c != "--output-format=regular"] +
+                      ["-Z", "unstable-options", "--output-format=old", "--cbmc-args", "--show-loops"], src, 900, 8 * 2**30)
+    pairs = []
+    for m in LOOP_RE.finditer(res["out"] or ""):
+        lid, f, line, func = m.group(1), m.group(2), int(m.group(3)), m.group(4)
+        for fsub, rx, bound in rules:
+            if fsub in func or fsub in lid:
+                path = f if os.path.isabs(f) else os.path.join(src, f)
+                try:
+                    text = open(path).read().split("\n")[line - 1]
+                except Exception:
+                    continue
+                if re.search(rx, text):
+                    pairs.append("%s:%d" % (lid, bound))
+                    break
+    if not pairs:
+        return None
+    return ["-Z", "unstable-options", "--cbmc-args", "--unwindset", ",".join(pairs)]
+
+
 def run_obligation(ob, src):
+    extra = resolve_unwindset(ob, src)
+    if extra is None:
+        return {"ob": ob, "status": "undecided", "detail": "lost anchor: no loop matched the unwindset rules",
+                "res": {"wall": 0.0, "out": "", "killed": None, "peak_rss": 0}}
+    ob = dict(ob, kani_args=list(ob.get("kani_args", [])) + extra) if extra else ob
     res = run_limited(kani_cmd(ob), src, ob.get("timeout", 900), ob.get("mem_gb", 12) * 2**30)
     status, detail = classify(ob, res)
     return {"ob": ob, "status": status, "detail": detail, "res": res}
